@@ -629,7 +629,7 @@ func cmdHarness(args []string) int {
 	res := ex.Run()
 	fmt.Printf("paths=%d infeasible=%d decisions=%d queries=%d merges=%d steps=%d wall=%.1fs solver=%.1fs sat=%d unsat=%d unknown=%d\n",
 		res.Paths, res.Infeasible, res.Decisions, res.Queries, res.Merges, res.Steps, res.Wall.Seconds(), res.Solver.Time.Seconds(), res.Solver.Sat, res.Solver.Unsat, res.Solver.Unknown)
-	fmt.Println("init steps:", res.InitSteps, "foreign globals:", len(res.ForeignGlobals))
+	fmt.Println("pruned:", res.Pruned, "init steps:", res.InitSteps, "foreign globals:", len(res.ForeignGlobals))
 	if res.Fatal != "" {
 		fmt.Println("FATAL:", res.Fatal)
 	}
